@@ -256,72 +256,133 @@ Qed.
 
 (** one step of the shadow parse: no panic, no fuel exhaustion; the next node is the same or a
     subcommand; the state invariant is kept *)
-Lemma shadow_step_ok w cur pi esc st : args_ok cur -> st_ok st ->
-  exists cur' pi' esc' st', shadow_step w cur pi esc st = SNext cur' pi' esc' st' /\
+Lemma shadow_step_ok w cur pi esc st vaf : args_ok cur -> st_ok st ->
+  exists cur' pi' esc' st' vaf', shadow_step w cur pi esc st vaf = SNext cur' pi' esc' st' vaf' /\
     (cur' = cur \/ In cur' (c_subs cur)) /\ st_ok st'.
 Proof.
   intros Hok Hst. unfold shadow_step.
   destruct (parse_positional_ok cur pi esc st Hst) as [stp [pip [Ep Hp]]]. rewrite Ep.
   destruct (if _ && utf8_valid w then find_subcommand cur w else None) as [nc|] eqn:Es.
-  { do 4 eexists. split; [reflexivity|]. split; [|exact I]. right.
+  { do 5 eexists. split; [reflexivity|]. split; [|exact I]. right.
     destruct (_ && utf8_valid w); [|discriminate]. unfold find_subcommand in Es.
     apply find_some in Es. tauto. }
-  destruct esc. { do 4 eexists; split; [reflexivity|]; split; [left; reflexivity|assumption]. }
-  destruct (is_escape w). { do 4 eexists; split; [reflexivity|]; split; [left; reflexivity|exact I]. }
+  destruct esc. { do 5 eexists; split; [reflexivity|]; split; [left; reflexivity|assumption]. }
+  destruct (is_escape w). { do 5 eexists; split; [reflexivity|]; split; [left; reflexivity|exact I]. }
   destruct (opt_allows_hyphen st w) eqn:Eh.
   { destruct st as [|p n|o cnt];
       try (unfold opt_allows_hyphen in Eh; destruct w as [|b t]; [discriminate|];
            rewrite andb_false_r in Eh; discriminate).
     destruct (parse_opt_value_ok o cnt Hst) as [st' [E Hs]]. rewrite E.
-    do 4 eexists; split; [reflexivity|]; split; [left; reflexivity|assumption]. }
+    do 5 eexists; split; [reflexivity|]; split; [left; reflexivity|assumption]. }
   destruct (to_long w) as [[[flag u] value]|].
-  { destruct u; [|do 4 eexists; split; [reflexivity|]; split; [left; reflexivity|exact I]].
+  { destruct u; [|do 5 eexists; split; [reflexivity|]; split; [left; reflexivity|exact I]].
     destruct (find_long_visible cur flag) as [o|] eqn:Eo.
     - pose proof (args_ok_num _ _ Hok (find_long_visible_in _ _ _ Eo)) as Hn.
       destruct (a_num o) as [r|] eqn:En; [|tauto].
       destruct (r_takes_values r && is_none value);
-        do 4 eexists; (split; [reflexivity|]); (split; [left; reflexivity|]); cbn; try exact I.
+        do 5 eexists; (split; [reflexivity|]); (split; [left; reflexivity|]); cbn; try exact I.
       rewrite En; discriminate.
     - destruct (pos_allows_hyphen cur pi);
-        do 4 eexists; (split; [reflexivity|]); (split; [left; reflexivity|]); [assumption|exact I]. }
+        do 5 eexists; (split; [reflexivity|]); (split; [left; reflexivity|]); [assumption|exact I]. }
   destruct (to_short w) as [short|].
   { destruct (parse_shortflags_safe cur short Hok) as [Hpn Hfn].
     destruct (parse_shortflags cur short) as [| |leading [o|] short'] eqn:E; try tauto.
     - unfold parse_shortflags in E. apply parse_shortflags_loop_opt in E.
       pose proof (args_ok_num _ _ Hok E) as Hn.
       destruct (is_none (next_value_os short'));
-        do 4 eexists; (split; [reflexivity|]); (split; [left; reflexivity|]); cbn; try exact I. assumption.
+        do 5 eexists; (split; [reflexivity|]); (split; [left; reflexivity|]); cbn; try exact I. assumption.
     - destruct (utf8_valid w && forallb (has_short cur) (decode leading)).
-      { do 4 eexists; split; [reflexivity|]; split; [left; reflexivity|exact I]. }
+      { do 5 eexists; split; [reflexivity|]; split; [left; reflexivity|exact I]. }
       destruct (pos_allows_hyphen cur pi);
-        do 4 eexists; (split; [reflexivity|]); (split; [left; reflexivity|]); [assumption|exact I]. }
+        do 5 eexists; (split; [reflexivity|]); (split; [left; reflexivity|]); [assumption|exact I]. }
   destruct st as [|p n|o cnt].
-  - do 4 eexists; split; [reflexivity|]; split; [left; reflexivity|assumption].
-  - do 4 eexists; split; [reflexivity|]; split; [left; reflexivity|assumption].
+  - do 5 eexists; split; [reflexivity|]; split; [left; reflexivity|assumption].
+  - do 5 eexists; split; [reflexivity|]; split; [left; reflexivity|assumption].
   - destruct (parse_opt_value_ok o cnt Hst) as [st' [E Hs]]. rewrite E.
-    do 4 eexists; split; [reflexivity|]; split; [left; reflexivity|assumption].
+    do 5 eexists; split; [reflexivity|]; split; [left; reflexivity|assumption].
 Qed.
 
 (** the walk: ends, or stands at a node reachable from the start with a good state *)
-Lemma shadow_walk_ok : forall items cursor target cur pi esc st,
+Lemma shadow_walk_ok : forall items cursor target cur pi esc st vaf,
   tree_all args_ok cur -> st_ok st ->
-  shadow_walk items cursor target cur pi esc st = WEnd \/
-  exists w cur' pi' st' esc', shadow_walk items cursor target cur pi esc st = WAt w cur' pi' st' esc' /\
+  shadow_walk items cursor target cur pi esc st vaf = WEnd \/
+  exists w cur' pi' st' esc' vaf', shadow_walk items cursor target cur pi esc st vaf = WAt w cur' pi' st' esc' vaf' /\
     reach cur cur' /\ st_ok st'.
 Proof.
-  induction items as [|w rest IH]; intros cursor target cur pi esc st Ht Hst; cbn [shadow_walk].
+  induction items as [|w rest IH]; intros cursor target cur pi esc st vaf Ht Hst; cbn [shadow_walk].
   - left; reflexivity.
   - destruct (sat_add cursor 1 =? target).
-    + right. do 5 eexists. split; [reflexivity|]. split; [constructor|assumption].
-    + destruct (shadow_step_ok w cur pi esc st (tree_all_here _ _ Ht) Hst)
-        as [cur' [pi' [esc' [st' [E [Hc Hs]]]]]].
+    + right. do 6 eexists. split; [reflexivity|]. split; [constructor|assumption].
+    + destruct (shadow_step_ok w cur pi esc st vaf (tree_all_here _ _ Ht) Hst)
+        as [cur' [pi' [esc' [st' [vaf' [E [Hc Hs]]]]]]].
       rewrite E.
       assert (Ht' : tree_all args_ok cur') by (destruct Hc as [->|Hin]; [assumption|eapply tree_all_sub; eauto]).
-      destruct (IH (sat_add cursor 1) target cur' pi' esc' st' Ht' Hs) as [H|[w' [c2 [p2 [s2 [e2 [H [Hr Hs2]]]]]]]].
+      destruct (IH (sat_add cursor 1) target cur' pi' esc' st' vaf' Ht' Hs) as [H|[w' [c2 [p2 [s2 [e2 [v2 [H [Hr Hs2]]]]]]]]].
       * left; assumption.
-      * right. do 5 eexists. split; [exact H|]. split; [|assumption].
+      * right. do 6 eexists. split; [exact H|]. split; [|assumption].
         destruct Hc as [->|Hin]; [assumption|econstructor; eauto].
 Qed.
+
+(** ** [complete_arg_v] (with [valid_arg_found]) through [complete_arg]: behind an argument of a command whose arguments
+    conflict with subcommands the candidates are those of the same command WITHOUT subcommands - everything else of
+    [complete_arg] reads the arguments of the command only *)
+Definition sub_cut (c : cmd) (vaf : bool) : cmd :=
+  if is_set s_args_negate_subs c && vaf then c <| c_subs := [] |> else c.
+
+Lemma sub_cut_args c vaf : c_args (sub_cut c vaf) = c_args c.
+Proof. unfold sub_cut. destruct (is_set s_args_negate_subs c && vaf); [destruct c; reflexivity|reflexivity]. Qed.
+
+Lemma parse_shortflags_loop_args c c' : c_args c = c_args c' -> forall fuel short leading,
+  parse_shortflags_loop fuel c short leading = parse_shortflags_loop fuel c' short leading.
+Proof.
+  intros Ha. induction fuel as [|f IH]; intros short leading; [reflexivity|]. cbn [parse_shortflags_loop].
+  destruct (next_flag short) as [[[ch|] short']|]; try reflexivity.
+  unfold find_short_visible. rewrite Ha.
+  destruct (List.find _ (c_args c')) as [o|]; [|apply IH].
+  destruct (a_num o) as [r|]; [|reflexivity]. destruct (r_takes_values r); [reflexivity|apply IH].
+Qed.
+
+Lemma complete_option_args tbl w c c' : c_args c = c_args c' -> complete_option tbl w c = complete_option tbl w c'.
+Proof.
+  intros Ha. unfold complete_option, longs_and_visible_aliases, hidden_longs_aliases, shorts_and_visible_aliases. rewrite Ha.
+  destruct (is_empty w); [reflexivity|]. destruct (is_stdio w); [reflexivity|]. destruct (is_escape w); [reflexivity|].
+  destruct (to_long w) as [[[flag u] value]|]; [reflexivity|].
+  destruct (to_short w) as [short|]; [|reflexivity].
+  unfold parse_shortflags. rewrite (parse_shortflags_loop_args c c' Ha). reflexivity.
+Qed.
+
+Lemma find_pos_args_eq c c' i : c_args c = c_args c' -> find_pos c i = find_pos c' i.
+Proof. unfold find_pos, positionals. intros ->. reflexivity. Qed.
+
+Lemma complete_subcommand_nosubs w c : c_subs c = [] -> complete_subcommand w c = [].
+Proof. intros H. unfold complete_subcommand, subcommands. rewrite H. reflexivity. Qed.
+
+Lemma value_done_v_cut tbl w c pi vaf :
+  complete_arg_value_done_v tbl w c pi vaf = complete_arg_value_done tbl w (sub_cut c vaf) pi.
+Proof.
+  unfold complete_arg_value_done_v, complete_arg_value_done.
+  rewrite (find_pos_args_eq (sub_cut c vaf) c pi (sub_cut_args c vaf)),
+          (complete_option_args tbl w (sub_cut c vaf) c (sub_cut_args c vaf)).
+  unfold sub_cut. destruct (is_set s_args_negate_subs c && vaf); cbn [negb].
+  - rewrite andb_false_r, (complete_subcommand_nosubs w (c <| c_subs := [] |>)) by (destruct c; reflexivity).
+    destruct (utf8_valid w); reflexivity.
+  - rewrite andb_true_r. reflexivity.
+Qed.
+
+Theorem complete_arg_v_cut tbl w c pi st vaf : complete_arg_v tbl w c pi st vaf = complete_arg tbl w (sub_cut c vaf) pi st.
+Proof.
+  destruct st as [|idx cnt|o cnt]; cbn [complete_arg_v complete_arg].
+  - apply value_done_v_cut.
+  - rewrite (find_pos_args_eq (sub_cut c vaf) c pi (sub_cut_args c vaf)),
+            (complete_option_args tbl w (sub_cut c vaf) c (sub_cut_args c vaf)). reflexivity.
+  - rewrite value_done_v_cut. reflexivity.
+Qed.
+
+Lemma sub_cut_args_ok c vaf : args_ok c -> args_ok (sub_cut c vaf).
+Proof. unfold args_ok. rewrite sub_cut_args. auto. Qed.
+
+Lemma sub_cut_subs c vaf sc : In sc (c_subs (sub_cut c vaf)) -> In sc (c_subs c).
+Proof. unfold sub_cut. destruct (is_set s_args_negate_subs c && vaf); [destruct c; intros []|auto]. Qed.
 
 Lemma complete_built_good tbl b args i : tree_all args_ok b -> ~ bad (complete_built tbl b args i).
 Proof.
@@ -329,11 +390,12 @@ Proof.
   destruct (shadow_walk_ok
      (skipn (N.to_nat (if is_set s_no_binary_name b then 0 else 1)) args)
      (if is_set s_no_binary_name b then 0 else 1)
-     (sat_add (N.min i (N.of_nat (length args))) 1) b 1 false ValueDone Ht I)
-    as [H|[w [c [p [s [e [H [Hr Hs]]]]]]]];
+     (sat_add (N.min i (N.of_nat (length args))) 1) b 1 false ValueDone false Ht I)
+    as [H|[w [c [p [s [e [v [H [Hr Hs]]]]]]]]];
     rewrite H.
   - intros [[x Hx]|Hx]; discriminate.
-  - apply complete_arg_good; [|assumption]. apply (tree_all_here args_ok). eapply tree_all_reach; eauto.
+  - rewrite complete_arg_v_cut. apply complete_arg_good; [|assumption].
+    apply sub_cut_args_ok. apply (tree_all_here args_ok). eapply tree_all_reach; eauto.
 Qed.
 
 (** C18_total *)
@@ -913,40 +975,49 @@ Proof.
 Qed.
 
 (** * Tying the level to the shadow parse of the preceding words *)
-Lemma start_walk_reach b args i w cur pi st esc : tree_all args_ok b ->
-  start_walk b args i = WAt w cur pi st esc -> reach b cur /\ args_ok cur.
+Lemma start_walk_reach b args i w cur pi st esc vaf : tree_all args_ok b ->
+  start_walk b args i = WAt w cur pi st esc vaf -> reach b cur /\ args_ok cur.
 Proof.
   intros Ht H. unfold start_walk in H.
   destruct (shadow_walk_ok
      (skipn (N.to_nat (if is_set s_no_binary_name b then 0 else 1)) args)
      (if is_set s_no_binary_name b then 0 else 1)
-     (sat_add (N.min i (N.of_nat (length args))) 1) b 1 false ValueDone Ht I)
-    as [E|[w' [c' [p' [s' [e' [E [Hr _]]]]]]]]; rewrite E in H; [discriminate|].
+     (sat_add (N.min i (N.of_nat (length args))) 1) b 1 false ValueDone false Ht I)
+    as [E|[w' [c' [p' [s' [e' [v' [E [Hr _]]]]]]]]]; rewrite E in H; [discriminate|].
   inversion H; subst. split; [assumption|]. apply (tree_all_here args_ok). eapply tree_all_reach; eauto.
 Qed.
 
 (** C18_sound: full statement over [complete_model]'s pieces *)
-Theorem sound : forall tbl c b args i w cur pi esc l cd,
+Lemma cand_sound_cut w c vaf cd : cand_sound w (sub_cut c vaf) cd -> cand_sound w c cd.
+Proof.
+  unfold cand_sound, names_option, names_subcommand. rewrite sub_cut_args.
+  destruct (cd_id cd) as [[aid|n]|]; [auto| |auto].
+  intros [Hp [sc [Hsc H]]]. split; [exact Hp|]. exists sc. split; [exact (sub_cut_subs c vaf sc Hsc)|exact H].
+Qed.
+
+Theorem sound : forall tbl c b args i w cur pi esc vaf l cd,
   build_full (build_fuel c) c = BOk b ->
-  start_walk b args i = WAt w cur pi ValueDone esc ->
-  complete_arg tbl w cur pi ValueDone = COk l -> In cd l ->
+  start_walk b args i = WAt w cur pi ValueDone esc vaf ->
+  complete_arg_v tbl w cur pi ValueDone vaf = COk l -> In cd l ->
   reach b cur /\ cand_sound w cur cd /\ cand_resolves cur cd.
 Proof.
-  intros tbl c b args i w cur pi esc l cd Hb Hw Hc Hin.
-  destruct (start_walk_reach b args i w cur pi ValueDone esc (build_full_ok _ _ _ Hb) Hw) as [Hr Hok].
-  pose proof (value_done_sound tbl w cur pi l Hc cd Hin) as Hs.
+  intros tbl c b args i w cur pi esc vaf l cd Hb Hw Hc Hin.
+  destruct (start_walk_reach b args i w cur pi ValueDone esc vaf (build_full_ok _ _ _ Hb) Hw) as [Hr Hok].
+  rewrite complete_arg_v_cut in Hc.
+  pose proof (cand_sound_cut w cur vaf cd (value_done_sound tbl w (sub_cut cur vaf) pi l Hc cd Hin)) as Hs.
   split; [assumption|]. split; [assumption|]. eapply cand_sound_resolves; eauto.
 Qed.
 
 (** [complete_model] succeeds exactly through these pieces *)
 Theorem model_ok_inv tbl c args i l : complete_model tbl c args i = COk l ->
-  exists b w cur pi st esc,
-    build_full (build_fuel c) c = BOk b /\ start_walk b args i = WAt w cur pi st esc /\
-    complete_arg tbl w cur pi st = COk l.
+  exists b w cur pi st esc vaf,
+    build_full (build_fuel c) c = BOk b /\ start_walk b args i = WAt w cur pi st esc vaf /\
+    complete_arg_v tbl w cur pi st vaf = COk l /\ complete_arg tbl w (sub_cut cur vaf) pi st = COk l.
 Proof.
   unfold complete_model. destruct (build_full (build_fuel c) c) as [b| |] eqn:Eb; try discriminate.
-  unfold complete_built. destruct (start_walk b args i) as [| | |w cur pi st esc] eqn:Ew; try discriminate.
-  intros H. exists b, w, cur, pi, st, esc. auto.
+  unfold complete_built. destruct (start_walk b args i) as [| | |w cur pi st esc vaf] eqn:Ew; try discriminate.
+  intros H. exists b, w, cur, pi, st, esc, vaf. split; [reflexivity|]. split; [exact Ew|]. split; [exact H|].
+  rewrite <- complete_arg_v_cut. exact H.
 Qed.
 
 (** * Non-vacuity: the hypotheses of the theorems above are satisfiable *)
@@ -965,8 +1036,8 @@ Definition ex_args : list bytes := [[112]; [45; 45; 111]].
 Example ex_sound_hyps :
   match build_full (build_fuel ex_cmd) ex_cmd with
   | BOk b => match start_walk b ex_args 1 with
-             | WAt w cur pi ValueDone false =>
-                 match complete_arg [] w cur pi ValueDone with COk (_ :: _) => True | _ => False end
+             | WAt w cur pi ValueDone false vaf =>
+                 match complete_arg_v [] w cur pi ValueDone vaf with COk (_ :: _) => True | _ => False end
              | _ => False end
   | _ => False end.
 Proof. vm_compute. exact I. Qed.
@@ -975,7 +1046,7 @@ Proof. vm_compute. exact I. Qed.
 Example ex_complete_long_hyps :
   match build_full (build_fuel ex_cmd) ex_cmd with
   | BOk b => match start_walk b ex_args 1 with
-             | WAt w cur pi ValueDone false =>
+             | WAt w cur pi ValueDone false _ =>
                  existsb (fun a => negb (a_hide a) && is_some (a_long a)
                                    && match a_long a with Some s => is_prefix w (dd ++ s) && negb (existsb (N.eqb EQ) s)
                                                      | None => false end) (c_args cur)
@@ -988,7 +1059,7 @@ Proof. vm_compute. reflexivity. Qed.
 Example ex_complete_sub_hyps :
   match build_full (build_fuel ex_cmd) ex_cmd with
   | BOk b => match start_walk b [[112]; [115]] 1 with
-             | WAt w cur pi ValueDone false =>
+             | WAt w cur pi ValueDone false _ =>
                  existsb (fun sc => negb (is_hide_set sc) && is_prefix w (c_name sc)) (c_subs cur)
                  && utf8_valid w = true
              | _ => False end
